@@ -62,20 +62,32 @@ class Workspace:
 _SINK = None
 
 
+LOGGER_AVAILABLE = None
+
+
 def set_log_level(name: str) -> None:
     """Ambient state of a run: the level `--debug` / `--info` give jasm's logger (records are formatted by a sink handler and
-    dropped; no log files are written). "warning" is the library default."""
-    global _SINK
+    dropped; no log files are written). "warning" is the library default. If the repository no longer has a module-level logger
+    object this is a no-op (the ambient axis is then simply not exercised; LOGGER_AVAILABLE tells)."""
+    global _SINK, LOGGER_AVAILABLE
     import logging
-    from jasm import logging_config as lc
+    try:
+        from jasm import logging_config as lc
+        lg = lc.logger
+        if not isinstance(lg, logging.Logger):
+            raise AttributeError("logger")
+    except Exception:  # noqa: BLE001
+        LOGGER_AVAILABLE = False
+        return
+    LOGGER_AVAILABLE = True
     if _SINK is None:
         class Sink(logging.Handler):
             def emit(self, record):
                 record.getMessage()
         _SINK = Sink(level=logging.DEBUG)
-        lc.logger.addHandler(_SINK)
-        lc.logger.propagate = False
-    lc.logger.setLevel({"debug": logging.DEBUG, "info": logging.INFO, "warning": logging.WARNING}[name])
+        lg.addHandler(_SINK)
+        lg.propagate = False
+    lg.setLevel({"debug": logging.DEBUG, "info": logging.INFO, "warning": logging.WARNING}[name])
 
 
 class log_level:
